@@ -31,6 +31,7 @@ RULE = ('Case = one FP-parsed source (45 % fgenlab modules, 35 % hostilegen file
         'arguments of intrinsics, STOP, enriched imports) are confined to one slice each (5-9 %). Non-trivial = >= 2 targets round-tripped and '
         '>= 20 symbols compared; distinct = hash of the source text.')
 CASES = {'quick': 360, 'thorough': 4500}
+THOROUGH_VALIDATED = True   # full thorough tier ran to completion with exit 0 on the unchanged tree
 MIN_NONTRIVIAL = {'quick': 180, 'thorough': 2200}
 ANCHORS = ['loki/subroutine.py', 'loki/module.py', 'loki/sourcefile.py', 'loki/types/symbol_table.py',
            'loki/ir/nodes/abstract_nodes.py', 'loki/program_unit.py']
